@@ -17,7 +17,8 @@ EXPLANATION = (
     "Static analysis decides the absence of the enumerated sources of history/seed/working-directory dependence: no "
     "function writes a module-level or imported mutable object, a mutable class attribute or a mutable default argument; "
     "functions that mutate a parameter are called with fresh values only and no cached property value is stored into; every "
-    "iteration over an unordered collection has a commutative body; no ambient source (time, random, environment, cwd, id) "
+    "iteration over an unordered collection - or over a mapping whose key order was inherited from one (the merged configuration) - has a "
+    "commutative body; no ambient source (time, random, environment, cwd, id) "
     "is used in the package outside the allow-listed CLI logging set-up; the crystal-system lookup cannot be shadowed by a "
     "working-directory entry; every file written on the output path is opened with 'w' (installed qha writers included) and "
     "the appending qha writer is not reachable; shear inputs are assigned before use. Positive-control fixtures for each "
